@@ -301,6 +301,53 @@ fn backend<B: Backend>(opts: &Opts, rep: &mut Report) {
     }
 }
 
+/// wrapping-key *objects* obtained in every way the library offers: what one of them wraps is opened by
+/// the key built from the same bytes (and vice versa), and by no other key - in particular not by
+/// anything the object was made from on the way (the still-encrypted bytes of the seal it came out of)
+fn derived_wrapping_keys<B: Backend>(opts: &Opts, rep: &mut Report) {
+    use paseto_core::paserk::PieWrappedKey;
+    use paseto_core::version::Local;
+    if opts.shard != 10 % opts.nshards && opts.only.is_none() {
+        return;
+    }
+    let mut rng = Rng::derive(opts.seed, "c06.derived", B::VER as u64 + if B::FAMILY == Family::Ffi { 10 } else { 0 });
+    for round in 0..opts.size(6, 60) {
+        let key: [u8; 32] = rng.arr();
+        let inner: [u8; 32] = rng.arr();
+        let plain = local_key::<B>(&key);
+        for (how, k) in derived_local_keys::<B>(&key, &mut rng, B::VER != 1 || round == 0) {
+            let d = |what: &str| json!({"backend": B::NAME, "wrapping_key_obtained_by": how, "wrapping_key": hx(&key), "what": what});
+            let Ok(k) = k else {
+                rep.violation(&format!("C06|{}|local-wrap.pie|key-object-unavailable:{how}", B::NAME), d("could not obtain the key object"));
+                continue;
+            };
+            // the derived object wraps; the plainly built key opens
+            match guard(|| pie_wrap_local(&local_key::<B>(&inner), &k)) {
+                Ok(Ok(blob)) => {
+                    if !matches!(guard(|| pie_unwrap_local(&blob, &plain)), Ok(Ok(x)) if x == inner) {
+                        rep.violation(&format!("C06|{}|local-wrap.pie|blob-of-derived-key-object-not-opened-by-the-same-key:{how}", B::NAME), d("a blob wrapped by this key object is refused by the key built from the same bytes"));
+                    }
+                    // ... and a key one bit away does not
+                    let mut other = key;
+                    other[round % 32] ^= 1;
+                    if matches!(guard(|| pie_unwrap_local(&blob, &local_key::<B>(&other))), Ok(Ok(_))) {
+                        rep.violation(&format!("C06|{}|local-wrap.pie|accepted:other-key:derived-{how}", B::NAME), d("opened by a different key"));
+                    }
+                }
+                _ => rep.violation(&format!("C06|{}|local-wrap.pie|wrap-failed:derived-{how}", B::NAME), d("wrap failed")),
+            }
+            // the plainly built key wraps; the derived object opens
+            if let Ok(Ok(blob)) = guard(|| pie_wrap_local(&local_key::<B>(&inner), &plain)) {
+                let r = guard(|| blob.parse::<PieWrappedKey<B, Local>>().and_then(|w| w.unwrap(&k)).map(|x| key_bytes(&x)));
+                if !matches!(r, Ok(Ok(x)) if x == inner) {
+                    rep.violation(&format!("C06|{}|local-wrap.pie|derived-key-object-refuses-blob-of-the-same-key:{how}", B::NAME), d("a blob wrapped under the same key bytes is refused by this key object"));
+                }
+            }
+            rep.case(&format!("{}.local-wrap.pie.derived-wrapping-key-{how}", B::NAME), fnv_parts(&[B::NAME.as_bytes(), how.as_bytes(), &key, &inner]), true);
+        }
+    }
+}
+
 /// a blob produced by backend A, relabelled with B's header and offered to B with the same secrets
 fn relabel<A: Backend, B: Backend>(opts: &Opts, rep: &mut Report) {
     if !(opts.wants_backend(A::NAME) && opts.wants_backend(B::NAME)) || opts.shard != 0 || A::VER == B::VER {
@@ -337,6 +384,7 @@ fn relabel<A: Backend, B: Backend>(opts: &Opts, rep: &mut Report) {
 pub fn run(opts: &Opts) {
     let mut rep = Report::new("C06");
     for_backends!(opts, backend, opts, &mut rep);
+    for_backends!(opts, derived_wrapping_keys, opts, &mut rep);
     macro_rules! pairs {
         ($($a:ty => $b:ty),* $(,)?) => { $( relabel::<$a, $b>(opts, &mut rep); )* };
     }
@@ -345,7 +393,7 @@ pub fn run(opts: &Opts) {
     pairs!(V1 => V3Lc, V3Lc => V1, V2 => V4Na, V4Na => V2, V3Lc => V4Na, V4Na => V3Lc, V3 => V4Na, V4 => V3Lc, V3Lc => V4, V4Na => V3, V3Lc => V2, V4Na => V1);
     rep.set(
         "rule",
-        json!("fault enumeration per wrapped/sealed blob (plus 65/129/300-byte passwords one byte off at positions 0..299 tried right after the right password; plus secrets one byte away from the right one tried right after the right one opened the blob; plus, for password wraps, a family of ~30 look-alike passwords - trailing/leading whitespace of every kind, case, doubled spaces, NFC/NFD, truncation, repetition - wrapped with one member and unwrapped with every other): every single-bit flip of every byte (tag, nonce, salt, parameters, ephemeral key / RSA ciphertext, encrypted key), truncation to every length, extensions, further dot-separated segments and trailing characters after the data, every other kind's header over the same body (same backend and every other version with the same wrapping key / password / where formats coincide the same recipient key), wrong wrapping key (random, one bit), wrong password (prefix, one char, empty, NUL suffix, case), other recipient; non-trivial = differs from the produced blob/secret; KDF costs beyond 64 MiB / 3 passes / 200k iterations are skipped and counted"),
+        json!("wrapping-key objects obtained from raw bytes / text / clone / PIE unwrap / password unwrap / PKE unseal: blobs wrapped by one are opened by the key built from the same bytes and vice versa, not by a key one bit away; fault enumeration per wrapped/sealed blob (plus 65/129/300-byte passwords one byte off at positions 0..299 tried right after the right password; plus secrets one byte away from the right one tried right after the right one opened the blob; plus, for password wraps, a family of ~30 look-alike passwords - trailing/leading whitespace of every kind, case, doubled spaces, NFC/NFD, truncation, repetition - wrapped with one member and unwrapped with every other): every single-bit flip of every byte (tag, nonce, salt, parameters, ephemeral key / RSA ciphertext, encrypted key), truncation to every length, extensions, further dot-separated segments and trailing characters after the data, every other kind's header over the same body (same backend and every other version with the same wrapping key / password / where formats coincide the same recipient key), wrong wrapping key (random, one bit), wrong password (prefix, one char, empty, NUL suffix, case), other recipient; non-trivial = differs from the produced blob/secret; KDF costs beyond 64 MiB / 3 passes / 200k iterations are skipped and counted"),
     );
     rep.finish(opts);
 }
